@@ -28,7 +28,7 @@ from .. import hydrogen as hg
 
 PID = "C15"
 PROOF_FILES = ["theories/Props/C15.v", "theories/Checker/Poly.v", "theories/Proofs/HydroPlane.v",
-               "theories/Proofs/HydroHalfplanes.v", "theories/Proofs/HydroPair.v", "theories/Proofs/HydroForce.v", "theories/Proofs/HydroParallel.v", "theories/Proofs/HydroOrder.v", "theories/Proofs/HydroInside.v"]
+               "theories/Proofs/HydroHalfplanes.v", "theories/Proofs/HydroPair.v", "theories/Proofs/HydroForce.v", "theories/Proofs/HydroParallel.v", "theories/Proofs/HydroOrder.v", "theories/Proofs/HydroInside.v", "theories/Proofs/HydroBary.v"]
 EPS = 2.220446049250313e-16
 
 CERT_HEADER = """From Coq Require Import ZArith QArith List.
@@ -633,19 +633,40 @@ def gen_cases(rng, tier):
     return pairs, bodies, units
 
 
-def route_polygon_failure(R, hits, what, case, t1, t2, plane, site):
-    """a reported polygon that is not the whole exact intersection / depends on the order.  Known
-    finding F26 (if recorded) covers exactly the inputs whose exact polygon has a vertex on >= 3 of
-    the 8 face planes (coincident / concurrent face lines); anything else is a violation."""
+def route_polygon_failure(R, hits, what, case, t1, t2, plane, site, key=None, pending=None):
+    """a reported polygon that is not the whole exact intersection / depends on the order.  With `pending` the
+    decision is deferred until the model has been run (resolve_pending); without it (targeted search, where the tie
+    to the model is already broken) it is a violation unless nothing else is known to be broken."""
+    if pending is not None:
+        pending.append(dict(what=what, case=case, t1=t1, t2=t2, plane=plane, site=site, key=key))
+        return
     kf = [k for k in R.known if k.get("id") == "F26"]
-    if kf and hg.concurrent_lines(t1, t2, plane):
+    if kf and not R.corr_broken and not R.proof_broken and hg.concurrent_lines(t1, t2, plane):
         hits[0] += 1
         R.known_finding("F26", kf[0].get("what", what)[:300])
     else:
         R.failure(what, case, site=site)
 
 
-def check_area(R, hits, t1, t2, plane, inter, area, case, tag):
+def resolve_pending(R, hits, pending, stage_ok):
+    """Known finding F26 covers a polygon failure only if (a) the exact polygon has a vertex on >= 3 of the 8 face
+    planes (coincident / concurrent lines: hydrogen.concurrent_lines) AND (b) the binary64 run of the model - the
+    transliteration of the algorithm as recorded - reproduces the implementation's result on that very input bit for
+    bit in both orders (every stage of compare_pair agreed).  (b) separates the recorded defect of the algorithm
+    from a changed implementation that loses vertices on the same class of inputs.  Everything else is a violation."""
+    kf = [k for k in R.known if k.get("id") == "F26"]
+    for p in pending:
+        key = p["key"]
+        reproduced = key is not None and stage_ok.get((key, "o12")) is True and stage_ok.get((key, "o21")) is True
+        if kf and reproduced and hg.concurrent_lines(p["t1"], p["t2"], p["plane"]):
+            hits[0] += 1
+            R.known_finding("F26", kf[0].get("what", p["what"])[:300])
+        else:
+            extra = "" if reproduced else " [the binary64 model of the recorded algorithm does not reproduce this result]"
+            R.failure(p["what"] + extra, p["case"], site=p["site"])
+
+
+def check_area(R, hits, t1, t2, plane, inter, area, case, tag, key=None, pending=None):
     """exact rational intersection polygon of the reported plane with both tetrahedra against the
     reported area (0 if reported as not intersecting)"""
     L = scale_of(t1, t2)
@@ -653,7 +674,7 @@ def check_area(R, hits, t1, t2, plane, inter, area, case, tag):
     got = area if inter else 0.0
     if abs(ex - got) > 1e-9 * L * L:
         route_polygon_failure(R, hits, f"reported contact polygon is not the intersection of the plane with both tetrahedra ({tag}): "
-                              f"area {got!r}, exact area {ex!r}", case, t1, t2, plane, "intersect_tetrahedron_pair")
+                              f"area {got!r}, exact area {ex!r}", case, t1, t2, plane, "intersect_tetrahedron_pair", key, pending)
         return False
     return True
 
@@ -733,7 +754,19 @@ def run(tier, seed, replay=None):
             continue
         cs = r.get("contacts", [])
         take = cs if len(cs) <= 4 else R.rng.sample(cs, 4)
-        for ct in take:
+        # contacts whose area / swapped polygon looks wrong are re-run too (at most 12 per case): the verdict
+        # "known finding F26" needs the model's run on exactly that input
+        sus = []
+        for ct in cs:
+            if ct in take or len(sus) >= 12 or not finite(ct["plane"], ct["poly"], ct["area"]):
+                continue
+            Lc = scale_of(ct["t1"], ct["t2"])
+            exa = hg.exact_area(hg.exact_polygon(ct["t1"], ct["t2"], ct["plane"]), ct["plane"])
+            if abs(exa - ct["area"]) > 1e-9 * Lc * Lc or (not ct["sw_inter"] and ct["area"] > 1e-9 * Lc * Lc) or \
+                    (ct["sw_inter"] and ct["area"] > 1e-9 * Lc * Lc and set_dist(ct["poly"], ct["sw_poly"]) > 1e-9 * Lc):
+                sus.append(ct)
+        for ct in list(take) + sus:
+            ct["_rerun"] = len(pairs) + len(rerun)          # index in allpairs
             rerun.append(dict(kind="pair", cls="rerun_" + c["cls"], t1=ct["t1"], e1=ct["e1"], t2=ct["t2"], e2=ct["e2"],
                               E1=r["E"][0], E2=r["E"][1], expect=dict(plane=ct["plane"], poly=ct["poly"], force=ct["force"],
                                                                      area=ct["area"], com=ct["com"]), body_case=bi))
@@ -896,16 +929,17 @@ def run(tier, seed, replay=None):
                           f"w12={r['w12']} w21={r['w21']}", c, site="find_contact_surface")
     # ---------------- order independence, completeness, bodies bookkeeping (Python oracles)
     f18_hits = [0]
+    pending = []
 
-    def polygon_failure(what, case, t1, t2, plane, site):
-        route_polygon_failure(R, f18_hits, what, case, t1, t2, plane, site)
+    def polygon_failure(what, case, t1, t2, plane, site, key=None):
+        route_polygon_failure(R, f18_hits, what, case, t1, t2, plane, site, key, pending)
 
-    def area_check(t1, t2, plane, inter, area, case, tag):
-        return check_area(R, f18_hits, t1, t2, plane, inter, area, case, tag)
+    def area_check(t1, t2, plane, inter, area, case, tag, key=None):
+        return check_area(R, f18_hits, t1, t2, plane, inter, area, case, tag, key, pending)
 
     order_skipped = 0
     area_checked = 0
-    for c, r in zip(allpairs, allpres):
+    for pi, (c, r) in enumerate(zip(allpairs, allpres)):
         if r is None or "exc" in r:
             continue
         a, b = r["o12"], r["o21"]
@@ -915,7 +949,7 @@ def run(tier, seed, replay=None):
             if ro.get("same") or not (ro["inter"] or ro.get("pre")) or not finite(ro["plane"]):
                 continue
             area_checked += 1
-            ok = area_check(ta, tb, ro["plane"], ro["inter"], ro.get("area", 0.0), dict(c, result=ro, order=o), o) and ok
+            ok = area_check(ta, tb, ro["plane"], ro["inter"], ro.get("area", 0.0), dict(c, result=ro, order=o), o, key=pi) and ok
         if not ok:
             continue
         if a["inter"] != b["inter"]:
@@ -925,7 +959,7 @@ def run(tier, seed, replay=None):
             else:
                 polygon_failure(f"intersection flag depends on the order of the tetrahedra ({a['inter']} vs {b['inter']}), area {rep.get('area')}",
                                 dict(c, o12=a, o21=b), c["t1"], c["t2"], a["plane"] if a["inter"] else [-x for x in b["plane"]],
-                                "intersect_tetrahedron_pair")
+                                "intersect_tetrahedron_pair", key=pi)
             continue
         if not a["inter"]:
             continue
@@ -939,7 +973,7 @@ def run(tier, seed, replay=None):
         if set_dist(a["poly"], b["poly"]) > 1e-9 * L:
             polygon_failure(f"contact polygon depends on the order of the tetrahedra: Hausdorff distance of the vertex sets "
                             f"{set_dist(a['poly'], b['poly']):.3g}", dict(c, o12=a, o21=b), c["t1"], c["t2"], a["plane"],
-                            "intersect_tetrahedron_pair")
+                            "intersect_tetrahedron_pair", key=pi)
         elif max_dev(a["plane"], [-x for x in b["plane"]]) > 1e-9 * L:
             R.failure("contact plane of the swapped pair is not the negated plane", dict(c, o12=a, o21=b), site="contact_plane")
         elif abs(a["area"] - b["area"]) > 1e-9 * L * L:
@@ -968,16 +1002,17 @@ def run(tier, seed, replay=None):
             if not finite(ct["plane"], ct["poly"], ct["area"]):
                 continue
             area_checked += 1
-            if not area_check(ct["t1"], ct["t2"], ct["plane"], True, ct["area"], dict(c, contact=ct), f"body contact {ct['i']},{ct['j']}"):
+            if not area_check(ct["t1"], ct["t2"], ct["plane"], True, ct["area"], dict(c, contact=ct), f"body contact {ct['i']},{ct['j']}",
+                              key=ct.get("_rerun")):
                 continue
             if ct["sw_inter"]:
                 if ct["area"] > 1e-9 * L * L and set_dist(ct["poly"], ct["sw_poly"]) > 1e-9 * L:
                     polygon_failure(f"contact polygon depends on the order of the tetrahedra (body contact {ct['i']},{ct['j']}): "
                                     f"{set_dist(ct['poly'], ct['sw_poly']):.3g}", dict(c, contact=ct), ct["t1"], ct["t2"], ct["plane"],
-                                    "intersect_tetrahedron_pair")
+                                    "intersect_tetrahedron_pair", key=ct.get("_rerun"))
             elif ct["area"] > 1e-9 * L * L:
                 polygon_failure(f"swapped tetrahedron pair ({ct['j']},{ct['i']}) does not intersect, area {ct['area']}", dict(c, contact=ct),
-                                ct["t1"], ct["t2"], ct["plane"], "intersect_tetrahedron_pair")
+                                ct["t1"], ct["t2"], ct["plane"], "intersect_tetrahedron_pair", key=ct.get("_rerun"))
     # re-run contacts must reproduce what find_contact_surface stored
     for c, r in zip(rerun, rres):
         if r is None or "exc" in r:
@@ -993,11 +1028,13 @@ def run(tier, seed, replay=None):
     stats = dict(bit_exact_stage_comparisons=0, tolerance_stage_comparisons=0, chain_compared=0, chain_skipped_near_tie=0,
                  max_dev=dict(plane=0.0, halfplanes=0.0, project=0.0, force=0.0, chain_poly=0.0, chain_force=0.0), unit_compared=0)
     branch = {}
+    stage_ok = {}
     try:
         outs = fut_model.result()
         for (i, o, ta, ea, tb, eb, Ea, Eb), txt in zip(m_idx, outs[:len(m_exprs)]):
             c, ro = allpairs[i], allpres[i][o]
             d = compare_pair(hg.parse_coq_value(txt), c, ro, ta, ea, tb, eb, Ea, Eb, stats, branch)
+            stage_ok[(i, o)] = not d
             if d:
                 if len(R.corr_broken) < 6:
                     R.corr_broken.append(f"Hydro model vs implementation ({c['cls']}, {o}): {d[0]}")
@@ -1021,6 +1058,7 @@ def run(tier, seed, replay=None):
             else:
                 distinct.add(cm.canon_hash(u))
 
+    resolve_pending(R, f18_hits, pending, stage_ok)
     T["coq_model"] = round(time.time() - t0, 1)
     if WORKER_NOTES:
         R.notes.append(dict(worker_retries=list(WORKER_NOTES)))
